@@ -272,6 +272,8 @@ def tf_inv(E, fr, _i):
     D0, ks = E.ghost["D0"], E.ghost["ks"]
     Dn = HM.alpha(node)
     HM.unfold_wf(E, Dn)
+    from contracts import seqlemmas as SL
+    SL.use(E, "concat_empty", rem, ks)
     return [("view", mk_bool(view_eq(E, node, rem, D0, K, ks))),
             ("remaining-is-a-suffix", mk_bool(suffix_of(rem, K))),
             ("node-well-formed", mk_bool(HM.hwfp(Dn)))]
@@ -301,7 +303,9 @@ def tf_cases(E, ctx):
         out = [("remaining-is-a-suffix", mk_bool(suffix_of(rt, K))), ("stops-only-inside-a-path", mk_bool(shape)),
                ("node-well-formed", mk_bool(HM.hwfp(Dn)))]
         if unit_mode:
+            from contracts import seqlemmas as SL
             _step_facts(E, n, rt, ks)
+            SL.use(E, "concat_empty", rt, ks)
             out.insert(0, ("view", mk_bool(view_eq(E, n, rt, D0, K, ks))))
         return out
 
@@ -332,9 +336,15 @@ def _step_facts(E, node, rem, ks):
 
 def tf_body_hook(E, fr):
     """facts added at the head of every iteration of the walk (unit mode): the step lemmas for the current node"""
+    from contracts import seqlemmas as SL
     node = fr.locals["node"]
     rem = ops.seq_term_as(fr.locals["remaining_key"], "int")
     _step_facts(E, node, rem, E.ghost["ks"])
+    K = ops.seq_term_as(fr.locals["trie_key"], "int")
+    SL.use(E, "suffix_tail", K, rem, z3.IntVal(1))
+    if isinstance(node, ListObj) and node.items is not None and len(node.items) == 2:
+        P, f = HM.hpk_parts(HM.bytes_of(node.items[0]))
+        SL.use(E, "suffix_tail", K, rem, z3.Length(P))
 
 
 def _register_read(reg):
